@@ -181,3 +181,157 @@ func TestHandlerSequence(t *testing.T) {
 		}
 	})
 }
+
+// ---------------------------------------------------------------------------
+// Part "composite-handlers": m.FlatMap(f) is a NEW MonadIO: where it runs is decided by the handlers set
+// on IT, not by those its receiver (or the MonadIOs f returns) happened to carry. The receiver gets
+// handlers first, then becomes the prefix of a composition; the composition is subscribed with its own
+// (possibly nil) handlers: all effects of the chain run on the composition's ObserveOn goroutine (the
+// subscriber's when nil), OnNext on its SubscribeOn goroutine (where the effects ran when nil).
+// ---------------------------------------------------------------------------
+
+type compCase struct {
+	MOb   int  `json:"mOb"` // handlers of the receiver: 0 nil, k = hk
+	MSub  int  `json:"mSub"`
+	IOb   int  `json:"iOb"` // handlers of the MonadIO the FlatMap function returns
+	ISub  int  `json:"iSub"`
+	COb   int  `json:"cOb"` // handlers of the composition
+	CSub  int  `json:"cSub"`
+	Depth int  `json:"depth"` // FlatMap steps
+	Late  bool `json:"late"`  // the receiver's handlers are set AFTER the composition was built
+}
+
+func runCompCase(c compCase) (key, msg string, inconclusive bool) {
+	hs := make([]*fpgo.HandlerDef, 3)
+	ids := make([]uint64, 3)
+	for i := range hs {
+		hs[i] = fpgo.Handler.NewByCh(make(chan func(), 2))
+		ids[i] = handlerGoID(hs[i])
+	}
+	defer func() {
+		for _, h := range hs {
+			h.Close()
+		}
+	}()
+	pick := func(k int) *fpgo.HandlerDef { return append([]*fpgo.HandlerDef{nil}, hs...)[k] }
+	var mu sync.Mutex
+	var effGs []uint64
+	rec := func() {
+		g := vlib.GoID()
+		mu.Lock()
+		effGs = append(effGs, g)
+		mu.Unlock()
+	}
+	m := fpgo.MonadIONewGenerics(func() int { rec(); return 1 })
+	conf := func(x *fpgo.MonadIODef[int], ob, sub int) {
+		if ob != 0 {
+			x.ObserveOn(pick(ob))
+		}
+		if sub != 0 {
+			x.SubscribeOn(pick(sub))
+		}
+	}
+	if !c.Late {
+		conf(m, c.MOb, c.MSub)
+	}
+	comp := m
+	for d := 0; d < c.Depth; d++ {
+		comp = comp.FlatMap(func(x int) *fpgo.MonadIODef[int] {
+			inner := fpgo.MonadIONewGenerics(func() int { rec(); return x + 1 })
+			conf(inner, c.IOb, c.ISub)
+			return inner
+		})
+	}
+	if c.Late {
+		conf(m, c.MOb, c.MSub)
+	}
+	conf(comp, c.COb, c.CSub)
+	var nextG uint64
+	nextN, nextV := 0, 0
+	done := make(chan struct{})
+	caller := vlib.GoID()
+	comp.Subscribe(fpgo.Subscription[int]{OnNext: func(v int) {
+		g := vlib.GoID()
+		mu.Lock()
+		nextG, nextV = g, v
+		nextN++
+		mu.Unlock()
+		close(done)
+	}})
+	select {
+	case <-done:
+	case <-time.After(vlib.StallBudget()):
+		return "", "", true
+	}
+	time.Sleep(50 * time.Microsecond)
+	mu.Lock()
+	defer mu.Unlock()
+	name := func(g uint64) string {
+		for j, id := range ids {
+			if id == g {
+				return fmt.Sprintf("h%d's goroutine", j+1)
+			}
+		}
+		if g == caller {
+			return "the subscriber's goroutine"
+		}
+		return fmt.Sprintf("goroutine %d", g)
+	}
+	if len(effGs) != c.Depth+1 || nextN != 1 || nextV != c.Depth+1 {
+		return "C11/composite-handlers/count", fmt.Sprintf("%d effects ran (want %d), OnNext %d times with %d (want once with %d)", len(effGs), c.Depth+1, nextN, nextV, c.Depth+1), false
+	}
+	wantEff := caller
+	if c.COb != 0 {
+		wantEff = ids[c.COb-1]
+	}
+	for i, g := range effGs {
+		if g != wantEff {
+			return "C11/composite-handlers/effect-goroutine", fmt.Sprintf("effect %d of the composition ran on %s, want %s (the composition's own ObserveOn handler decides; its receiver had ObserveOn=h%d SubscribeOn=h%d, 0 = none)", i, name(g), name(wantEff), c.MOb, c.MSub), false
+		}
+	}
+	wantNext := wantEff
+	if c.CSub != 0 {
+		wantNext = ids[c.CSub-1]
+	}
+	if nextG != wantNext {
+		return "C11/composite-handlers/onnext-goroutine", fmt.Sprintf("OnNext of the composition ran on %s, want %s", name(nextG), name(wantNext)), false
+	}
+	return "", "", false
+}
+
+func TestCompositeHandlers(t *testing.T) {
+	if vlib.Replaying() {
+		raw := vlib.ReplayCase("C11/composite")
+		if raw == nil {
+			return
+		}
+		var c compCase
+		if err := json.Unmarshal(raw, &c); err != nil {
+			t.Fatal(err)
+		}
+		if key, msg, _ := runCompCase(c); key != "" {
+			t.Fatalf("[key=%s] %s", key, msg)
+		}
+		return
+	}
+	vlib.Check(t, "composite-handlers", 500, 6000, func(t *rapid.T) {
+		h := rapid.IntRange(0, 3)
+		c := compCase{MOb: h.Draw(t, "mOb"), MSub: h.Draw(t, "mSub"), IOb: h.Draw(t, "iOb"), ISub: h.Draw(t, "iSub"),
+			COb: h.Draw(t, "cOb"), CSub: h.Draw(t, "cSub"), Depth: rapid.IntRange(1, 3).Draw(t, "depth"), Late: rapid.Bool().Draw(t, "late")}
+		vlib.S().Eval("composite-handlers")
+		if c.MOb != 0 || c.MSub != 0 || c.IOb != 0 || c.ISub != 0 {
+			vlib.S().NonTrivial("composite-handlers", fmt.Sprintf("%+v", c))
+		}
+		key, msg, inc := runCompCase(c)
+		if inc {
+			vlib.S().Class("composite-handlers/inconclusive")
+			return
+		}
+		if key != "" {
+			vlib.WriteReplay("C11/composite", c)
+			if vlib.Fail(t, key, "%+v: %s", c, msg) {
+				t.Skip("known")
+			}
+		}
+	})
+}
